@@ -78,3 +78,7 @@ for MutinyStream<'a, ItemType, ChannelConsumerType, DerivedItemType> {
         self.events_source.drop_resources(self.stream_id);
     }
 }
+
+/// verification hook (compiled only under `cargo kani` or `--cfg reactive_mutiny_verif`): harnesses live outside this repository
+#[cfg(any(kani, reactive_mutiny_verif))]
+pub(crate) mod verif_hooks { include!(concat!(env!("REACTIVE_MUTINY_VERIF_DIR"), "/kani/mutiny_stream.rs")); }
